@@ -68,6 +68,32 @@ second batch (find_element / guess_elements_from_masses, Atoms.pop, group_duplic
   `key(m)` for a parameter `key`          application of a function-typed parameter (generic element / key types)
   `len(self)`, `del(self[[e]])`           a parameter `self_len`; the function is translated as the index list it deletes
 
+third batch (extend_types, cell_is_orthorhombic, the near-window guard and box test, replicate's cell,
+             _delete_and_reindex_atom_index_array, the dispatch of Atoms.load / Atoms.save)
+  mutating methods (`mutates=True`)       `self.attr = e` is `let attr' := e`; the result is (returned value, final value of every
+                                          assigned attribute, in the declared order of `attrs`); an undeclared assigned attribute
+                                          is Unsupported
+  `other.attr` (`objattrs`)               attributes read from a parameter that is an object become parameters `other_attr`
+  `self.prop` for a translated property   a call of its generated definition on the current values of the attributes it reads
+  `obj.m()` (`method_calls`)              a call of the generated definition of method `m`, its `self.attr` taken from `obj.attr`
+  `np.append(a, b)` on 1-D lists          `a ++ b`
+  arrays of STATICALLY KNOWN SHAPE        parameters / attributes declared `Mat3`, `Vec3` or a tuple are numpy arrays whose elements
+                                          are the fields of the Lean value; the translator EXPANDS numpy expressions over them
+                                          element by element: `np.diag`, `np.identity(n)`, `np.array(x)`, `.reshape(…)`, arithmetic
+                                          and comparisons with numpy broadcasting (trailing axes aligned), `.all()` / `.any()` /
+                                          `np.all` / `np.any` (conjunction / disjunction), `np.prod` / `np.sum` of a vector,
+                                          `list(a)`, `a[i]` with constant i; `x is None` on such a value is `False`
+  `np.any(xs)` on a list of bools         `List.any xs id`;  `xs.copy()` is `xs`
+  `np.subtract(X, k, out=X, where=X > i)` `let X := Py.npSubWhereGt X k i` (2-D index array); also as the body of a fold loop
+  `return a, b` with a declared tuple type, unary minus, `s[i:]` (`Py.strDrop`), numeric / tuple parameter defaults
+  fragments (`fragment=[…]`)              the translation of ONE expression of a larger function: the path selects it
+                                          (`("if", text)` + `"test"|"body"|"orelse"`, `("for", text)` whose targets become parameters
+                                          (`loopvars`) or opaque, `("assign", target)`); the statements on the path before it are
+                                          translated as a slice, and a statement outside the subset is SKIPPED after making every
+                                          local it mentions opaque (so a fragment that depends on it becomes Unsupported)
+  dispatch slices (`sites_only=True`)     `with cm as x:` is its body (x opaque); the result is the source text of the function
+                                          whose value is returned (`return g(…)` or `x = g(…); return x`), `none` = raise
+
 sequencing slices (`trace=True`, used for mofun_cli)
   The body must consist of simple statements (expression statements, assignments, assert, del) and `if`s over them; no
   loops, no return.  The translation is `List String`: the simple statements that are executed, in program order, as
@@ -106,6 +132,7 @@ class Unsupported(Exception):
 
 # ------------------------------------------------------------------ types
 STR, NAT, INT, NUM, BOOL, VAL, ELEM, KEY = "str", "nat", "int", "num", "bool", "val", "elem", "key"
+MAT3, VEC3 = "mat3", "vec3"       # a 3x3 / 3 numpy array of floats with a statically known shape (Lean `Mat3` / `Vec3`)
 INTLIT, DECLIT, OPAQUE, NONE = "intlit", "declit", "opaque", "none"
 
 
@@ -146,7 +173,8 @@ def lean_ty(t):
             return "List (%s × %s)" % (_paren_ty(t[1]), _paren_ty(t[2]))
         if t[0] == "fun":
             return "%s → %s" % (_paren_ty(t[1]), _paren_ty(t[2]))
-    return {STR: "String", NAT: "Nat", INT: "Int", NUM: "Rat", BOOL: "Bool", VAL: "Py.Val", ELEM: "α", KEY: "κ"}[t]
+    return {STR: "String", NAT: "Nat", INT: "Int", NUM: "Rat", BOOL: "Bool", VAL: "Py.Val", ELEM: "α", KEY: "κ",
+            MAT3: "Mat3", VEC3: "Vec3"}[t]
 
 
 def _paren_ty(t):
@@ -173,13 +201,32 @@ class V:
     """a translated expression: Lean term (always atomic or parenthesised), python-level type, the bindings that
     have to be made before it (`let name ← term`; sub-expressions that may raise), the local Lean names it mentions"""
 
-    def __init__(self, term, ty, binds=(), refs=(), items=None, lit=None, prop=None):
+    def __init__(self, term, ty, binds=(), refs=(), items=None, lit=None, prop=None, np=False):
         self.term, self.ty, self.binds, self.refs = term, ty, list(binds), set(refs)
         self.items, self.lit, self.prop = items, lit, prop
+        self.np = np          # a numpy array of statically known shape (`items`, nested): operators act element-wise
 
     @staticmethod
     def opaque():
         return V("?", OPAQUE)
+
+
+def static_param(name, ty):
+    """a parameter of type Mat3 / Vec3 as a numpy array whose elements are the fields of the Lean structure"""
+    if ty == VEC3:
+        return V(name, VEC3, (), {name}, items=[V("%s.%s" % (name, c), NUM, (), {name}) for c in "xyz"], np=True)
+    if ty == MAT3:
+        return V(name, MAT3, (), {name}, np=True,
+                 items=[V("%s.%s" % (name, r), VEC3, (), {name}, np=True,
+                          items=[V("%s.%s.%s" % (name, r, c), NUM, (), {name}) for c in "xyz"]) for r in "abc"])
+    if isinstance(ty, tuple) and ty[0] == "tuple":
+        n = len(ty[1])
+        return V(name, ty, (), {name}, items=[V(Fn.proj(name, i, n), t, (), {name}) for i, t in enumerate(ty[1])])
+    return V(name, ty, (), {name})
+
+
+def shape_of(v):
+    return () if v.items is None else (len(v.items),) + (shape_of(v.items[0]) if v.items else ())
 
 
 def _atomic(term):
@@ -249,7 +296,7 @@ class Fn:
                 if c not in outer_params or c in assigned:
                     raise Unsupported("%s:%d: %s is not an unmodified parameter of %s" % (self.path, fn.lineno, c, self.outer.name))
         a = fn.args
-        if a.vararg or a.kwarg or a.kwonlyargs or a.posonlyargs:
+        if a.vararg or (a.kwarg and not self.cfg.get("allow_kwargs")) or a.kwonlyargs or a.posonlyargs:
             raise Unsupported("%s:%d: %s: only plain positional parameters are supported" % (self.path, fn.lineno, fn.name))
         return fn
 
@@ -305,6 +352,18 @@ class Fn:
             return V("(Py.Val.str %s)" % v.term, VAL, v.binds, v.refs)
         if v.ty == "emptydict" and isinstance(ty, tuple) and ty[0] == "dict":
             return V("[]", ty)
+        if v.items is not None and isinstance(ty, tuple) and ty[0] == "tuple" and len(ty[1]) == len(v.items):
+            items = [self.coerce(node, x, t) for x, t in zip(v.items, ty[1])]
+            binds, refs = _join(*items)
+            return V("(%s)" % ", ".join(x.term for x in items), ty, v.binds + binds, refs)
+        if v.items is not None and ty == VEC3 and shape_of(v) == (3,):
+            items = [self.coerce(node, x, NUM) for x in v.items]
+            binds, refs = _join(*items)
+            return V("(⟨%s⟩ : Vec3)" % ", ".join(x.term for x in items), VEC3, v.binds + binds, refs)
+        if v.items is not None and ty == MAT3 and shape_of(v) == (3, 3):
+            rows = [self.coerce(node, x, VEC3) for x in v.items]
+            binds, refs = _join(*rows)
+            return V("(⟨%s⟩ : Mat3)" % ", ".join(x.term for x in rows), MAT3, v.binds + binds, refs)
         if isinstance(v.ty, tuple) and isinstance(ty, tuple) and v.ty[0] in ("list", "set") and ty[0] in ("list", "set") \
                 and v.items is not None:
             items = [self.coerce(node, x, ty[1]) for x in v.items]
@@ -346,6 +405,54 @@ class Fn:
         binds, refs = _join(*items)
         return V("[%s]" % ", ".join(x.term for x in items), ty, binds, refs, items=[V(x.term, x.ty, (), x.refs, x.items, x.lit) for x in items])
 
+    # -------------------------------------------------------------- numpy arrays of statically known shape
+    def mkstatic(self, items, np=True):
+        """a static array from its (already translated) elements"""
+        binds, refs = _join(*items)
+        tys = [x.ty for x in items]
+        if all(t in (INTLIT, DECLIT) for t in tys):
+            ty, term = LIST(DECLIT if DECLIT in tys else INTLIT), "?"
+        else:
+            ety = tys[0] if all(t == tys[0] for t in tys) else None
+            if ety is None and all(x.items is None for x in items):
+                ety = self.unify(None, tys)
+                items = [self.coerce(None, x, ety) for x in items]
+            ty = LIST(ety if ety is not None else tys[0])
+            term = "?" if any(x.term == "?" for x in items) else "[%s]" % ", ".join(x.term for x in items)
+        return V(term, ty, binds, refs, items=[V(x.term, x.ty, (), x.refs, x.items, x.lit, np=x.np) for x in items], np=np)
+
+    def elementwise(self, node, a, b, f):
+        """numpy broadcasting of a binary scalar operation `f` over static arrays (trailing axes are aligned)"""
+        sa, sb = shape_of(a), shape_of(b)
+        if not sa and not sb:
+            return f(a, b)
+        if len(sa) > len(sb):
+            return self.mkstatic([self.elementwise(node, x, b, f) for x in a.items])
+        if len(sb) > len(sa):
+            return self.mkstatic([self.elementwise(node, a, y, f) for y in b.items])
+        if sa[0] == sb[0]:
+            return self.mkstatic([self.elementwise(node, x, y, f) for x, y in zip(a.items, b.items)])
+        if sa[0] == 1:
+            return self.mkstatic([self.elementwise(node, a.items[0], y, f) for y in b.items])
+        if sb[0] == 1:
+            return self.mkstatic([self.elementwise(node, x, b.items[0], f) for x in a.items])
+        self.fail(node, "shapes %s and %s cannot be broadcast" % (sa, sb))
+
+    def flat(self, v):
+        return [v] if v.items is None else [y for x in v.items for y in self.flat(x)]
+
+    def reduce_bool(self, node, v, op, unit):
+        xs = self.flat(v)
+        if any(x.ty != BOOL for x in xs):
+            self.fail(node, "any/all of a non-boolean array")
+        binds, refs = _join(*xs)
+        if not xs:
+            return V(unit, BOOL)
+        term = xs[0].term
+        for x in xs[1:]:
+            term = "(%s %s %s)" % (term, op, x.term)
+        return V(term, BOOL, v.binds + binds, refs | v.refs)
+
     def close(self, v):
         """the Option-valued term `do binds; pure v`"""
         if not v.binds:
@@ -363,7 +470,22 @@ class Fn:
             key = ast.unparse(node)
             if key in ab:                       # an expression the translation takes as a parameter
                 nm, ty = ab[key]
-                return V(nm, ty, (), {nm})
+                return static_param(nm, ty)
+        mc = self.cfg.get("method_calls")
+        if mc and isinstance(node, ast.Call) and ast.unparse(node) in mc:
+            # `obj.m()` where `m` is a translated method: its `self.attr` parameters are read from `obj.attr`
+            lean, argsrc = mc[ast.unparse(node)]
+            other = [c for c in FUNCTIONS if c["lean"] == lean][0]
+            args = [self.ex(ast.parse(a, mode="eval").body, env) for a in argsrc]
+            if any(a.ty == OPAQUE for a in args):
+                return V.opaque()
+            args = [self.coerce(node, a, t) for a, t in zip(args, list(other.get("attrs", {}).values()) + [t for _, t in other["params"]])]
+            binds, refs = _join(*args)
+            term = "(%s %s)" % (lean, " ".join(a.term for a in args))
+            if other.get("partial"):
+                r = self.rebind(term, other["ret"], refs)
+                return V(r.term, other["ret"], binds + r.binds, r.refs)
+            return V(term, other["ret"], binds, refs)
         m = getattr(self, "ex_" + type(node).__name__, None)
         if m is None:
             if self.slice:
@@ -405,6 +527,24 @@ class Fn:
     def ex_Attribute(self, node, env, want):
         if isinstance(node.value, ast.Name) and node.value.id == "self" and "self" in env and node.attr in self.cfg.get("attrs", {}):
             return env["self." + node.attr]
+        if isinstance(node.value, ast.Name) and node.value.id in self.cfg.get("objattrs", {}) and \
+                node.attr in self.cfg["objattrs"][node.value.id] and (node.value.id + "." + node.attr) in env:
+            return env[node.value.id + "." + node.attr]
+        if isinstance(node.value, ast.Name) and node.value.id == "self" and "self" in env:
+            # a property of the same class that is translated separately
+            for other in FUNCTIONS:
+                if other.get("cls") == self.cfg.get("cls") and other["py"] == node.attr and other.get("decorators") == ["property"] \
+                        and not other.get("slice"):
+                    missing = [a for a in other["attrs"] if "self." + a not in env]
+                    if missing:
+                        self.fail(node, "property %s reads self.%s, which is not declared for %s" % (node.attr, missing[0], self.cfg["py"]))
+                    args = [env["self." + a] for a in other["attrs"]]
+                    binds, refs = _join(*args)
+                    term = "(%s %s)" % (other["lean"], " ".join(a.term for a in args))
+                    if other.get("partial"):
+                        r = self.rebind(term, other["ret"], refs)
+                        return V(r.term, other["ret"], binds + r.binds, r.refs)
+                    return V(term, other["ret"], binds, refs)
         if self.slice:
             return V.opaque()
         self.fail(node, "attribute %s" % ast.unparse(node))
@@ -421,6 +561,14 @@ class Fn:
                 return V(str(-v.lit), INTLIT, lit=-v.lit)
             if v.ty == DECLIT:
                 return V("?", DECLIT, lit=(-v.lit[0], v.lit[1]))
+        if isinstance(node.op, ast.USub):
+            v = self.ex(node.operand, env)
+            if v.ty == OPAQUE:
+                return v
+            if v.ty == NAT:
+                v = self.coerce(node, v, INT)
+            if v.ty in (NUM, INT):
+                return V("(-%s)" % v.term, v.ty, v.binds, v.refs)
         if self.slice:
             return V.opaque()
         self.fail(node, "unary operator")
@@ -463,6 +611,14 @@ class Fn:
             right = self.ex(rn, env)
             if OPAQUE in (left.ty, right.ty):
                 return V.opaque()
+            if isinstance(op, (ast.Is, ast.IsNot)) and right.ty == NONE and left.ty in (MAT3, VEC3) and len(node.ops) == 1:
+                return V("false" if isinstance(op, ast.Is) else "true", BOOL)     # a declared array is not None
+            if (left.np and left.items is not None) or (right.np and right.items is not None):
+                if len(node.ops) != 1 or isinstance(op, (ast.In, ast.NotIn, ast.Is, ast.IsNot)):
+                    self.fail(node, "comparison of arrays")
+                r = self.elementwise(node, left, right, lambda x, y: self.compare1(node, op, x, y))
+                r.binds = left.binds + right.binds + r.binds
+                return r
             one = self.compare1(node, op, left, right)
             if out is None:
                 out = one
@@ -526,6 +682,13 @@ class Fn:
         a, b = self.ex(node.left, env), self.ex(node.right, env)
         if OPAQUE in (a.ty, b.ty):
             return V.opaque()
+        if (a.np and a.items is not None) or (b.np and b.items is not None):
+            r = self.elementwise(node, a, b, lambda x, y: self.binop_scalar(node, x, y))
+            r.binds = a.binds + b.binds + r.binds
+            return r
+        return self.binop_scalar(node, a, b)
+
+    def binop_scalar(self, node, a, b):
         ty = self.unify(node, [a.ty, b.ty])
         if isinstance(ty, tuple) and ty[0] == "set":
             fn = {ast.BitAnd: "Py.setInter", ast.BitOr: "Py.setUnion", ast.Sub: "Py.setDiff"}.get(type(node.op))
@@ -604,6 +767,8 @@ class Fn:
             return V(r.term, NUM, k.binds + r.binds, r.refs)
         if isinstance(sl, ast.Slice):
             lo = 0 if sl.lower is None else self.const_index(sl.lower)
+            if base.ty == STR and sl.step is None and sl.upper is None:
+                return V("(Py.strDrop %s %d)" % (base.term, lo), STR, base.binds, base.refs)
             if base.ty != STR or sl.step is not None or sl.upper is None:
                 self.fail(node, "slice %s" % ast.unparse(node))
             hi = self.const_index(sl.upper)
@@ -721,10 +886,27 @@ class Fn:
                 self.fail(node, "np.delete(%s, %s, axis=0)" % (a.ty, idx.ty))
             binds, refs = _join(a, idx)
             return V("(Py.npDelete %s %s)" % (a.term, idx.term), a.ty, binds, refs)
+        # other numpy functions
+        if isinstance(f, ast.Attribute) and isinstance(f.value, ast.Name) and f.value.id == "np" and "np" not in env:
+            r = self.np_call(node, f.attr, env, kw)
+            if r is not None:
+                return r
         if node.keywords:
             if self.slice:
                 return V.opaque()
             self.fail(node, "keyword arguments")
+        # methods of arrays / lists
+        if isinstance(f, ast.Attribute) and f.attr in ("all", "any", "copy", "reshape"):
+            obj = self.ex(f.value, env)
+            if obj.ty != OPAQUE:
+                if f.attr == "copy" and not node.args and (obj.items is not None or (isinstance(obj.ty, tuple) and obj.ty[0] == "list")):
+                    return obj
+                if f.attr in ("all", "any") and not node.args and obj.np and obj.items is not None:
+                    return self.reduce_bool(node, obj, "&&" if f.attr == "all" else "||", "true" if f.attr == "all" else "false")
+                if f.attr == "reshape" and obj.np and obj.items is not None:
+                    dims = node.args[0].elts if len(node.args) == 1 and isinstance(node.args[0], ast.Tuple) else node.args
+                    dims = [self.const_index(d) for d in dims]
+                    return self.reshape(node, obj, dims)
         # len(self)
         if isinstance(f, ast.Name) and f.id == "len" and "len" not in env and len(node.args) == 1 and \
                 isinstance(node.args[0], ast.Name) and node.args[0].id == "self" and "self.__len__" in env:
@@ -822,6 +1004,67 @@ class Fn:
             return V.opaque()
         self.fail(node, "call %s" % ast.unparse(node))
 
+    def reshape(self, node, v, dims):
+        xs = self.flat(v)
+        n = 1
+        for d in dims:
+            n *= d
+        if n != len(xs) or not dims:
+            self.fail(node, "reshape of %d elements to %s" % (len(xs), dims))
+
+        def build(xs, dims):
+            if len(dims) == 1:
+                return self.mkstatic(xs)
+            k = len(xs) // dims[0]
+            return self.mkstatic([build(xs[i * k:(i + 1) * k], dims[1:]) for i in range(dims[0])])
+        r = build(xs, dims)
+        r.binds = v.binds + r.binds
+        return r
+
+    def np_call(self, node, name, env, kw):
+        """numpy functions with a meaning in the subset; None = not one of them"""
+        args = [self.ex(a, env) for a in node.args]
+        if any(a.ty == OPAQUE for a in args):
+            return V.opaque()
+        if name == "append" and len(args) == 2 and not kw:
+            a, b = args
+            if isinstance(a.ty, tuple) and a.ty[0] == "list" and a.ty == b.ty and not isinstance(a.ty[1], tuple) and \
+                    a.items is None and b.items is None:
+                binds, refs = _join(a, b)
+                return V("(%s ++ %s)" % (a.term, b.term), a.ty, binds, refs)      # 1-D arrays: concatenation
+            self.fail(node, "np.append(%s, %s)" % (a.ty, b.ty))
+        if name in ("any", "all") and len(args) == 1 and not kw:
+            a = args[0]
+            if a.items is not None:
+                return self.reduce_bool(node, a, "&&" if name == "all" else "||", "true" if name == "all" else "false")
+            if a.ty == LIST(BOOL):
+                return V("(List.%s %s id)" % (name, a.term), BOOL, a.binds, a.refs)
+            self.fail(node, "np.%s of %s" % (name, a.ty))
+        if name == "diag" and len(args) == 1 and not kw and len(shape_of(args[0])) == 2 and \
+                shape_of(args[0])[0] == shape_of(args[0])[1]:
+            a = args[0]
+            r = self.mkstatic([row.items[i] for i, row in enumerate(a.items)])
+            r.binds = a.binds + r.binds
+            return r
+        if name == "identity" and len(node.args) == 1 and not kw:
+            n = self.const_index(node.args[0])
+            return self.mkstatic([self.mkstatic([V(str(int(i == j)), INTLIT, lit=int(i == j)) for j in range(n)]) for i in range(n)])
+        if name == "array" and len(args) == 1 and (not kw or set(kw) == {"dtype"}) and args[0].items is not None:
+            a = args[0]
+
+            def mark(v):
+                return V(v.term, v.ty, v.binds, v.refs, None if v.items is None else [mark(x) for x in v.items], v.lit, np=v.items is not None)
+            return mark(a)
+        if name in ("prod", "sum") and len(args) == 1 and not kw and len(shape_of(args[0])) == 1 and args[0].items:
+            a = args[0]
+            acc = a.items[0]
+            for x in a.items[1:]:
+                acc = self.binop_scalar(ast.BinOp(left=node, op=ast.Mult() if name == "prod" else ast.Add(), right=node,
+                                                  lineno=node.lineno, col_offset=node.col_offset), acc, x)
+            acc.binds = a.binds + acc.binds
+            return acc
+        return None
+
     def cond(self, node, env):
         """an expression used as a truth value"""
         v = self.ex(node, env)
@@ -844,6 +1087,21 @@ class Fn:
                 return ("ret", V("none", self.ret))
             raise Unsupported("%s: %s can fall off its end (returns None)" % (self.path, self.cfg["py"]))
         s, rest = stmts[0], stmts[1:]
+        if self.cfg.get("fragment") and not isinstance(s, (ast.Return, ast.If)):
+            # fragment slices: a statement outside the subset is skipped; every local it mentions becomes opaque
+            saved = self.ntmp
+            try:
+                self.stmt(s, [], env, [[_Stop()]], mode)          # can this statement be translated on its own?
+                ok = True
+            except Unsupported:
+                ok = False
+            self.ntmp = saved
+            if not ok:
+                e2 = dict(env)
+                for n in ast.walk(s):
+                    if isinstance(n, ast.Name) and n.id in e2 and n.id in self.locals_assigned:
+                        e2[n.id] = V.opaque()
+                return self.block(rest, e2, conts, mode)
         try:
             return self.stmt(s, rest, env, conts, mode)
         except UnboundLocal as e:
@@ -859,6 +1117,8 @@ class Fn:
         return ir
 
     def stmt(self, s, rest, env, conts, mode):
+        if isinstance(s, _Stop):
+            return ("end",)
         if isinstance(s, ast.Expr):
             c = s.value
             if isinstance(c, ast.Constant) and isinstance(c.value, str):
@@ -875,6 +1135,25 @@ class Fn:
                 e2 = dict(env)
                 e2[x] = V(nm, v.ty, (), {nm})
                 return ("let", nm, V("(List.reverse %s)" % v.term, v.ty, (), v.refs), self.block(rest, e2, conts, mode))
+            # np.subtract(X, k, out=X, where=X > i): every entry of X above i drops by k
+            if isinstance(c, ast.Call) and ast.unparse(c.func) == "np.subtract" and "np" not in env and len(c.args) == 2 and \
+                    isinstance(c.args[0], ast.Name) and {k.arg for k in c.keywords} == {"out", "where"}:
+                kw = {k.arg: k.value for k in c.keywords}
+                x = c.args[0].id
+                w = kw["where"]
+                if not (isinstance(kw["out"], ast.Name) and kw["out"].id == x and isinstance(w, ast.Compare) and len(w.ops) == 1 and
+                        isinstance(w.ops[0], ast.Gt) and isinstance(w.left, ast.Name) and w.left.id == x):
+                    self.fail(s, "np.subtract form %s" % ast.unparse(c))
+                arr = self.ex(c.args[0], env)
+                if arr.ty != LIST(LIST(NAT)):
+                    self.fail(s, "np.subtract on %s" % (arr.ty,))
+                k = self.coerce(s, self.ex(c.args[1], env), NAT)
+                i = self.coerce(s, self.ex(w.comparators[0], env), NAT)
+                nm = self.lname(x)
+                e2 = dict(env)
+                e2[x] = V(nm, arr.ty, (), {nm})
+                return self.with_binds(k.binds + i.binds, ("let", nm, V("(Py.npSubWhereGt %s %s %s)" % (arr.term, k.term, i.term), arr.ty, (),
+                                                                        arr.refs | k.refs | i.refs), self.block(rest, e2, conts, mode)))
             # xs.append(v)  /  d[k].append(v)
             if isinstance(c, ast.Call) and isinstance(c.func, ast.Attribute) and c.func.attr == "append" and \
                     len(c.args) == 1 and not c.keywords:
@@ -949,6 +1228,17 @@ class Fn:
             for nm, val in reversed(lets):
                 ir = ("let", nm, val, ir)
             return self.with_binds(v.binds, ir)
+        if isinstance(s, ast.Assign) and len(s.targets) == 1 and isinstance(s.targets[0], ast.Attribute) and \
+                isinstance(s.targets[0].value, ast.Name) and s.targets[0].value.id == "self" and self.cfg.get("mutates") and \
+                s.targets[0].attr in self.cfg.get("attrs", {}):
+            # self.attr = e   (the final values of the assigned attributes are part of the result)
+            attr = s.targets[0].attr
+            ty = self.cfg["attrs"][attr]
+            v = self.coerce(s, self.ex(s.value, env), ty)
+            nm = self.lname(attr) + "'"
+            e2 = dict(env)
+            e2["self." + attr] = V(nm, ty, (), {nm})
+            return self.with_binds(v.binds, ("let", nm, V(v.term, ty, (), v.refs), self.block(rest, e2, conts, mode)))
         if isinstance(s, ast.Assign):
             if len(s.targets) != 1 or not isinstance(s.targets[0], ast.Name):
                 self.fail(s, "assignment target")
@@ -970,7 +1260,7 @@ class Fn:
                 return self.with_binds(v.binds, self.block(rest, e2, conts, mode))
             if v.items is not None and all(_atomic(it.term) for it in v.items):
                 # static list of names / literals: one `let` for the list; `x[i]` is the element itself
-                e2[x] = V(nm, v.ty, (), {nm}, items=v.items)
+                e2[x] = V(nm, v.ty, (), {nm}, items=v.items, np=v.np)
                 return self.with_binds(v.binds, ("let", nm, V(v.term, v.ty, (), v.refs), self.block(rest, e2, conts, mode)))
             if v.items is not None:                                     # static list: one let per element
                 names = ["%s_%d" % (nm, i) for i in range(len(v.items))]
@@ -985,9 +1275,28 @@ class Fn:
                 return self.with_binds(v.binds, ir)
             e2[x] = V(nm, v.ty, (), {nm})
             return self.with_binds(v.binds, ("let", nm, V(v.term, v.ty, (), v.refs), self.block(rest, e2, conts, mode)))
+        if isinstance(s, ast.With) and self.slice:
+            # `with cm(...) as name: body` in a slice: the body, with `name` opaque (the context manager is not modelled)
+            e2 = dict(env)
+            for it in s.items:
+                if it.optional_vars is not None:
+                    for n in ast.walk(it.optional_vars):
+                        if isinstance(n, ast.Name):
+                            e2[n.id] = V.opaque()
+            return self.block(s.body, e2, [rest] + list(conts), mode)
         if isinstance(s, ast.Return):
             if rest:
                 self.fail(rest[0], "statement after return")
+            if self.cfg.get("sites_only"):
+                # the function that produces the returned value: `return g(...)`, or `x = g(...); return x`
+                val = s.value
+                if isinstance(val, ast.Name):
+                    defs = [n for n in ast.walk(self.node) if isinstance(n, ast.Assign) and len(n.targets) == 1 and
+                            isinstance(n.targets[0], ast.Name) and n.targets[0].id == val.id and n.lineno < s.lineno]
+                    val = max(defs, key=lambda n: n.lineno).value if defs else val
+                if not isinstance(val, ast.Call):
+                    self.fail(s, "a dispatch slice must return the result of a call")
+                return ("ret", V(_lean_str(ast.unparse(val.func)), STR))
             return self.ret_ir(s, env, mode)
         if isinstance(s, ast.Raise):
             if not self.partial:
@@ -1000,7 +1309,7 @@ class Fn:
         self.fail(s, "statement %s is outside the supported subset" % type(s).__name__)
 
     def ret_ir(self, s, env, mode):
-        site = self.sites.index(s)
+        site = self.sites.index(s) if s in self.sites else 0
         if self.cfg.get("tagged"):
             if s.value is None or (isinstance(s.value, ast.Constant) and s.value.value is None):
                 return ("ret", V("(%d, none)" % site, None))
@@ -1016,10 +1325,20 @@ class Fn:
             return self.with_binds(binds, ("ret", v))
         if s.value is None:
             self.fail(s, "bare return")
-        v = self.ex(s.value, env)
+        want = self.ret
+        if isinstance(s.value, ast.Tuple) and isinstance(want, tuple) and want[0] == "tuple" and len(want[1]) == len(s.value.elts):
+            comps = [self.coerce(s, self.ex(e, env), t) for e, t in zip(s.value.elts, want[1])]
+            binds, refs = _join(*comps)
+            v = V("(%s)" % ", ".join(c.term for c in comps), want, binds, refs)
+        else:
+            v = self.ex(s.value, env)
+        if self.cfg.get("mutates"):
+            v = self.coerce(s, v, want)
+            outs = [env["self." + a] for a in self.mutated_attrs()]
+            binds, refs = _join(v, *outs)
+            return self.with_binds(binds, ("ret", V("(%s)" % ", ".join([v.term] + [o.term for o in outs]), None, (), refs)))
         if v.ty == NONE and isinstance(self.ret, tuple) and self.ret[0] == "opt":
             return ("ret", V("none", self.ret))
-        want = self.ret
         if isinstance(want, tuple) and want[0] == "opt" and v.ty != want:
             v = self.coerce(s, v, want[1])
             v = V("(some %s)" % v.term, want, v.binds, v.refs)
@@ -1028,6 +1347,17 @@ class Fn:
         if v.items is not None and v.term == "?":
             self.fail(s, "untyped literal list returned")
         return self.with_binds(v.binds, ("ret", V(v.term, v.ty, (), v.refs)))
+
+    def mutated_attrs(self):
+        """the attributes of self the method assigns, in the order in which the translator declares them (`attrs`);
+        unexpected ones last (they make the translation Unsupported)"""
+        out = []
+        for n in sorted((n for n in ast.walk(self.node) if isinstance(n, ast.Assign)), key=lambda n: (n.lineno, n.col_offset)):
+            for t in n.targets:
+                if isinstance(t, ast.Attribute) and isinstance(t.value, ast.Name) and t.value.id == "self" and t.attr not in out:
+                    out.append(t.attr)
+        order = list(self.cfg.get("attrs", {}))
+        return sorted(out, key=lambda a: order.index(a) if a in order else len(order))
 
     def if_ir(self, s, rest, env, conts, mode):
         t = s.test
@@ -1059,6 +1389,8 @@ class Fn:
                             e2[tg.id] = V.opaque()
             return self.block(rest, e2, conts, mode)
         k = [rest] + list(conts)
+        if c.term in ("true", "false") and not c.binds:          # a guard decided by the declared types
+            return self.block(s.body if c.term == "true" else s.orelse, env, k, mode)
         a = self.block(s.body, env, k, mode)
         b = self.block(s.orelse, env, k, mode)
         return self.with_binds(c.binds, ("if", V(c.prop or c.term, BOOL, (), c.refs), a, b))
@@ -1105,6 +1437,10 @@ class Fn:
             if isinstance(n, ast.Expr) and isinstance(n.value, ast.Call) and isinstance(n.value.func, ast.Attribute) and n.value.func.attr == "append":
                 t = n.value.func.value
                 tgt = t.id if isinstance(t, ast.Name) else (t.value.id if isinstance(t, ast.Subscript) and isinstance(t.value, ast.Name) else None)
+            if isinstance(n, ast.Expr) and isinstance(n.value, ast.Call) and ast.unparse(n.value.func) == "np.subtract":
+                for k in n.value.keywords:
+                    if k.arg == "out" and isinstance(k.value, ast.Name):
+                        tgt = k.value.id
             if tgt is not None and tgt in env and tgt not in changed:
                 changed.append(tgt)
         if len(changed) != 1:
@@ -1285,6 +1621,49 @@ class Fn:
             out += lines
         return out
 
+    # -------------------------------------------------------------- fragments
+    def fragment_body(self, stmts, steps, env):
+        """the statements on the path to a selected expression, followed by `return <that expression>`.
+        steps: ("if", text) then "test" | "body" | "orelse";  ("for", text) enters a loop body, its targets become
+        parameters (`loopvars`) or opaque;  ("assign", target text) selects the assigned value."""
+        out = []
+        steps = list(steps)
+        while steps:
+            st = steps.pop(0)
+            kind, text = st
+            if kind == "if":
+                hits = [(i, x) for i, x in enumerate(stmts) if isinstance(x, ast.If) and text in ast.unparse(x.test)]
+                if len(hits) != 1:
+                    raise Unsupported("%s: %s: %d `if` statements mention %r" % (self.path, self.cfg["py"], len(hits), text))
+                i, x = hits[0]
+                out += stmts[:i]
+                what = steps.pop(0)
+                if what == "test":
+                    return out + [ast.copy_location(ast.Return(value=x.test), x)]
+                stmts = x.body if what == "body" else x.orelse
+            elif kind == "for":
+                hits = [(i, x) for i, x in enumerate(stmts) if isinstance(x, ast.For) and text in ast.unparse(x.iter)]
+                if len(hits) != 1:
+                    raise Unsupported("%s: %s: %d `for` loops over %r" % (self.path, self.cfg["py"], len(hits), text))
+                i, x = hits[0]
+                out += stmts[:i]
+                for n in ast.walk(x.target):
+                    if isinstance(n, ast.Name):
+                        lv = self.cfg.get("loopvars", {})
+                        env[n.id] = static_param(self.lname(n.id), lv[n.id]) if n.id in lv else V.opaque()
+                self.locals_assigned -= set(self.cfg.get("loopvars", {}))
+                stmts = x.body
+            elif kind == "assign":
+                hits = [(i, x) for i, x in enumerate(stmts) if isinstance(x, ast.Assign) and len(x.targets) == 1 and
+                        ast.unparse(x.targets[0]) == text]
+                if len(hits) != 1:
+                    raise Unsupported("%s: %s: %d assignments to %r" % (self.path, self.cfg["py"], len(hits), text))
+                i, x = hits[0]
+                return out + stmts[:i] + [ast.copy_location(ast.Return(value=x.value), x)]
+            else:
+                raise AssertionError(kind)
+        raise Unsupported("%s: %s: the fragment path selects no expression" % (self.path, self.cfg["py"]))
+
     # -------------------------------------------------------------- the definition
     def translate(self):
         cfg, fn = self.cfg, self.node
@@ -1293,19 +1672,24 @@ class Fn:
         defaults = dict(zip([a.arg for a in fn.args.args][len(fn.args.args) - len(fn.args.defaults):], fn.args.defaults))
         names = [a.arg for a in fn.args.args]
         if cfg.get("cls"):
-            if names[:1] != ["self"]:
+            if names[:1] != (["cls"] if "classmethod" in cfg.get("decorators", []) else ["self"]):
                 raise Unsupported("%s: %s is not a method" % (self.path, cfg["py"]))
             env["self"] = V("self", OPAQUE)
             names = names[1:]
             for attr, ty in cfg["attrs"].items():
                 nm = "self_len" if attr == "__len__" else self.lname(attr)
-                env["self." + attr] = V(nm, ty, (), {nm})
+                env["self." + attr] = static_param(nm, ty)
+                params.append((nm, ty))
+        for obj, attrs in cfg.get("objattrs", {}).items():   # attributes read from a parameter that is an object
+            for attr, ty in attrs.items():
+                nm = "%s_%s" % (obj, attr)
+                env[obj + "." + attr] = static_param(nm, ty)
                 params.append((nm, ty))
         for c, ty in cfg.get("closure", []):            # variables of the enclosing function a nested function reads
             nm = self.lname(c)
             env[c] = V(nm, ty, (), {nm})
             params.append((nm, ty))
-        if not self.slice and names != [p for p, _ in cfg["params"]]:
+        if not self.slice and [n for n in names if n not in cfg.get("objattrs", {})] != [p for p, _ in cfg["params"]]:
             raise Unsupported("%s:%d: parameters of %s are %r, the translator expects %r" %
                               (self.path, fn.lineno, cfg["py"], names, [p for p, _ in cfg["params"]]))
         for p in names:
@@ -1326,6 +1710,10 @@ class Fn:
                     elif ty == BOOL and isinstance(d, ast.Constant) and isinstance(d.value, bool):
                         self.default_defs.append("/-- the default `%s=%s` of `%s` -/\ndef %s_default_%s : Bool := %s" %
                                                  (p, d.value, cfg["py"], cfg["lean"], p, "true" if d.value else "false"))
+                    elif isinstance(ty, tuple) and ty[0] == "tuple" and all(t == NAT for t in ty[1]) and isinstance(d, ast.Tuple) and \
+                            len(d.elts) == len(ty[1]) and all(isinstance(e, ast.Constant) and isinstance(e.value, int) and e.value >= 0 for e in d.elts):
+                        self.default_defs.append("/-- the default `%s=%s` of `%s` -/\ndef %s_default_%s : %s := (%s)" %
+                                                 (p, ast.unparse(d), cfg["py"], cfg["lean"], p, lean_ty(ty), ", ".join(str(e.value) for e in d.elts)))
                     elif isinstance(ty, tuple) and ty[0] == "fun":
                         pass                                  # a default key function is not translated: the caller passes one
                     elif not (isinstance(d, ast.Constant) and d.value is None and isinstance(ty, tuple) and ty[0] == "opt"):
@@ -1333,11 +1721,11 @@ class Fn:
                 elif isinstance(ty, tuple) and ty[0] == "opt":
                     raise Unsupported("%s:%d: %s.%s no longer defaults to None" % (self.path, fn.lineno, cfg["py"], p))
                 nm = self.lname(p)
-                env[p] = V(nm, ty, (), {nm})
+                env[p] = static_param(nm, ty)
                 params.append((nm, ty))
             else:
                 env[p] = V.opaque()
-        missing = [p for p in declared if p not in names]
+        missing = [p for p in list(declared) + list(cfg.get("objattrs", {})) if p not in names]
         if missing:
             raise Unsupported("%s:%d: %s has no parameter %s" % (self.path, fn.lineno, cfg["py"], missing))
         if cfg.get("trace"):
@@ -1349,14 +1737,26 @@ class Fn:
             sig = "def %s%s : List String :=" % (cfg["lean"], "".join(" (%s : %s)" % (n, lean_ty(t)) for n, t in params))
             doc = "/-- translated from `%s` in %s%s -/" % (cfg["py"], cfg["file"], cfg.get("doc", ""))
             return "\n\n".join(self.default_defs + ["\n".join([doc, sig] + self.trace_emit(parts, 1))])
+        for nm, ty in cfg.get("abstractions", {}).values() if not cfg.get("trace") else []:
+            params.append((nm, ty))
+        for nm, ty in cfg.get("loopvars", {}).items():
+            params.append((self.lname(nm), ty))
         mode = "partial" if self.partial else "total"
-        ir = self.dce(self.block(fn.body, env, [], mode))
+        body_stmts = fn.body
+        if cfg.get("fragment"):
+            body_stmts = self.fragment_body(fn.body, cfg["fragment"], env)
+        ir = self.dce(self.block(body_stmts, env, [], mode))
         used = self.fv(ir)
         if self.slice:
             params = [(n, t) for n, t in params if n in used]
         body = self.emit(ir, 1, mode)
         if cfg.get("tagged"):
             rty = "Nat × Option (String × List Int)"
+        elif cfg.get("mutates"):
+            for a in self.mutated_attrs():
+                if a not in cfg["attrs"]:
+                    raise Unsupported("%s:%d: %s assigns self.%s, which the translator does not expect" % (self.path, fn.lineno, cfg["py"], a))
+            rty = lean_ty(TUP(self.ret, *[cfg["attrs"][a] for a in self.mutated_attrs()]))
         else:
             rty = lean_ty(self.ret)
         if self.partial:
@@ -1373,6 +1773,12 @@ class Fn:
 
 class UnboundLocal(Exception):
     pass
+
+
+class _Stop(ast.stmt):
+    """sentinel: the end of a probe translation"""
+    lineno = 0
+    col_offset = 0
 
 
 # ------------------------------------------------------------------ what is translated
@@ -1433,6 +1839,49 @@ FUNCTIONS += [
     dict(file="mofun/rough_uff.py", py="delete_if_all_in_set", lean="deleteIfAllInSet",
          params=[("arr", LIST(LIST(NAT))), ("s", SET(NAT))], locals={"deletion_list": LIST(NAT)}, ret=LIST(LIST(NAT)),
          doc="; `arr` is the list of rows of the 2-D index array"),
+]
+
+_COEFFS = {"%s_type_coeffs" % k: LIST(STR) for k in _TERM_KINDS}
+_TYPE_TABLES = {"atom_type_elements": LIST(STR), "atom_type_masses": LIST(NUM), "atom_type_labels": LIST(STR),
+                "pair_coeffs": LIST(STR)}
+
+FUNCTIONS += [
+    # ---- third batch
+    dict(file="mofun/atoms.py", cls="Atoms", py="extend_types", lean="extendTypes", params=[], mutates=True, partial=True,
+         attrs=dict(list(_TYPE_TABLES.items()) + [kv for k in _TERM_KINDS for kv in (("%s_types" % k, LIST(NAT)), ("%s_type_coeffs" % k, LIST(STR)))]),
+         objattrs={"other": dict(list(_TYPE_TABLES.items()) + list(_COEFFS.items()))},
+         ret=TUP(NAT, NAT, NAT, NAT, NAT),
+         doc=": (the returned offsets, then the new value of every attribute of self it assigns, in the order elements, masses, labels, pair_coeffs, bond/angle/dihedral/improper coefficients); "
+             "`np.append` of 1-D arrays is concatenation; `none` = an exception of a `num_*_types` property"),
+    dict(file="mofun/atoms.py", cls="Atoms", py="cell_is_orthorhombic", lean="cellIsOrthorhombic", params=[], attrs={"cell": MAT3},
+         ret=BOOL, doc="; the numpy expression is expanded element by element over the 3x3 cell"),
+    dict(file="mofun/mofun.py", py="_get_positions_from_all_adjacent_unit_cells", lean="nearUsesPlaneTests", slice=True,
+         fragment=[("if", "cell_is_orthorhombic"), "test"], params=[("distance", NUM)], ret=BOOL,
+         abstractions={"structure.cell": ("structure_cell", MAT3)},
+         method_calls={"structure.cell_is_orthorhombic()": ("cellIsOrthorhombic", ["structure.cell"])},
+         doc=" (FRAGMENT: the guard that selects the general plane tests instead of the orthorhombic box test)"),
+    dict(file="mofun/mofun.py", py="_get_positions_from_all_adjacent_unit_cells", lean="nearBoxTest", slice=True,
+         fragment=[("if", "cell_is_orthorhombic"), "orelse", ("for", "all_positions"), ("if", "pos[0]"), "test"],
+         params=[("distance", NUM)], loopvars={"pos": VEC3}, ret=BOOL,
+         abstractions={"structure.cell": ("structure_cell", MAT3)},
+         doc=" (FRAGMENT: the box test of the orthorhombic branch for one image position `pos`)"),
+    dict(file="mofun/atoms.py", cls="Atoms", py="load", lean="atomsLoadSite", slice=True, sites_only=True, partial=True,
+         decorators=["classmethod"], allow_kwargs=True, params=[("filetype", OPT(STR))], attrs={}, ret=STR,
+         abstractions={"isinstance(f, io.TextIOBase)": ("f_is_file", BOOL), "os.path.splitext(path)": ("path_splitext", TUP(STR, STR))},
+         doc=" (DISPATCH slice: the function whose result is returned — cls.load_lmpdat, cls.load_cml or cls.load_p1_cif; "
+             "`none` = one of the two `raise`s; parameters: filetype, whether f is an open text file, os.path.splitext(path))"),
+    dict(file="mofun/atoms.py", cls="Atoms", py="save", lean="atomsSaveSite", slice=True, sites_only=True, partial=True,
+         allow_kwargs=True, params=[("filetype", OPT(STR))], attrs={}, ret=STR,
+         abstractions={"isinstance(f, io.TextIOBase)": ("f_is_file", BOOL), "os.path.splitext(path)": ("path_splitext", TUP(STR, STR))},
+         doc=" (DISPATCH slice: the function whose result is returned — self.save_lmpdat, self.save_raspa_mol or self.save_p1_cif; "
+             "`none` = one of the two `raise`s)"),
+    dict(file="mofun/atoms.py", cls="Atoms", py="replicate", lean="replicateCell", slice=True,
+         fragment=[("assign", "repl_atoms.cell")], params=[("repldims", TUP(NAT, NAT, NAT))], attrs={"cell": MAT3}, ret=MAT3,
+         doc=" (FRAGMENT: the cell of the replicated structure, `self.cell * np.array(repldims).reshape(3, 1)`)"),
+    dict(file="mofun/atoms.py", cls="Atoms", py="_delete_and_reindex_atom_index_array", lean="deleteAndReindex",
+         params=[("arr", LIST(LIST(NAT))), ("sorted_deleted_indices", LIST(NAT))], attrs={},
+         locals={"arr_idx_to_delete": LIST(NAT)}, ret=TUP(LIST(LIST(NAT)), LIST(NAT)),
+         doc="; `arr` is the list of rows of the 2-D index array; result = (re-indexed surviving rows, indices of the deleted rows)"),
 ]
 
 PRELUDE = r'''/- GENERATED on every run by harness/gen_code.py from the sources of /repo — do not edit.
@@ -1557,6 +2006,10 @@ def enumerate {α} (xs : List α) : List (Nat × α) := enumerateFrom 0 xs
 /-- `np.delete(arr, idx, axis=0)` for indices inside the array -/
 def npDelete {α} (arr : List α) (idx : List Nat) : List α := deleteIdx arr idx
 
+/-- `np.subtract(arr, k, out=arr, where=arr > i)` on a 2-D index array -/
+def npSubWhereGt (arr : List (List Nat)) (k i : Nat) : List (List Nat) :=
+  arr.map (fun row => row.map (fun x => if x > i then x - k else x))
+
 /-! insertion-ordered dicts are association lists with distinct keys -/
 
 /-- `k in d` -/
@@ -1572,6 +2025,8 @@ def dictAppend? {κ β} [DecidableEq κ] (d : List (κ × List β)) (k : κ) (x 
 def strIndex? (s : String) (i : Nat) : Option String := s.toList[i]?.map String.singleton
 /-- `s[i:j]` for constant `0 ≤ i`, `0 ≤ j` -/
 def strSlice (s : String) (i j : Nat) : String := String.ofList ((s.toList.take j).drop i)
+/-- `s[i:]` for a constant `i ≥ 0` -/
+def strDrop (s : String) (i : Nat) : String := String.ofList (s.toList.drop i)
 /-- `s.strip(cs)`: drop every leading and every trailing character that occurs in `cs` -/
 def strStrip (s cs : String) : String :=
   String.ofList (((s.toList.dropWhile (fun c => cs.toList.contains c)).reverse.dropWhile (fun c => cs.toList.contains c)).reverse)
